@@ -103,7 +103,7 @@ func determinism(e *env) error {
 					if i == 0 {
 						firstB = got
 						// the process prints what the in-process run printed (colour aside: same flags)
-						if b.Stdout != strings.SplitN(first, "\x00", 2)[0] {
+						if b.Stdout != strings.SplitN(first, "\x00", 2)[0] && !hasArg(args, "stats") { // (stats reads its files by name: the in-process run sees none)
 							e.mismatch("output-differs-between-runs", "cmd/hranoprovod-cli", fmt.Sprintf("%v: the binary prints %q, the in-process run %q", args, trunc(b.Stdout), trunc(first)), rec)
 						}
 					} else if got != firstB {
@@ -115,4 +115,13 @@ func determinism(e *env) error {
 		}
 	}
 	return nil
+}
+
+func hasArg(args []string, a string) bool {
+	for _, x := range args {
+		if x == a {
+			return true
+		}
+	}
+	return false
 }
